@@ -145,7 +145,9 @@ func vfConcreteRing(dx, dy float64, ccw bool) orb.Ring {
 }
 
 var vfGeomNames = []string{"Point", "MultiPoint[2]", "MultiPoint[3]", "LineString[2]", "LineString[3]", "MultiLineString[[2 concrete],[2]]", "MultiLineString[[2]]",
-	"Polygon[[3+c]]", "Polygon[[3]]", "Ring[3]", "Polygon[[3+c],[3+c hole]]", "MultiPolygon[[[3+c]],[[3+c]]]", "MultiPolygon[[[3+c]]]", "MultiPoint[1]", "Bound"}
+	"Polygon[[3+c]]", "Polygon[[3]]", "Ring[3]", "Polygon[[3+c],[3+c hole]]", "MultiPolygon[[[3+c]],[[3+c]]]", "MultiPolygon[[[3+c]]]", "MultiPoint[1]", "Bound",
+	"Polygon with hole x20000", "Polygon with hole x2^24", "MultiPolygon with hole x20000", "MultiPolygon with hole x2^24",
+	"Polygon[big outer, hole of symbolic width]", "MultiPolygon[[concrete],[outer of symbolic width]]"}
 
 func vfGeom(c int, g *vfCoordGen) (in orb.Geometry, want orb.Geometry) {
 	switch c {
@@ -188,7 +190,60 @@ func vfGeom(c int, g *vfCoordGen) (in orb.Geometry, want orb.Geometry) {
 	case 13:
 		p := g.pt()
 		return orb.MultiPoint{p}, p
+	case 15, 16, 17, 18:
+		// the multi-ring cases at large magnitudes (ring regrouping looks at the winding of every later ring)
+		k := 20000.0
+		if c%2 == 0 {
+			k = 1 << 24
+		}
+		base := 10
+		if c >= 17 {
+			base = 11
+		}
+		in, _ := vfGeom(base, g)
+		sc := func(r orb.Ring) {
+			for i := range r {
+				r[i][0] *= k
+				r[i][1] *= k
+			}
+		}
+		switch t := in.(type) {
+		case orb.Polygon:
+			for _, r := range t {
+				sc(r)
+			}
+		case orb.MultiPolygon:
+			for _, p := range t {
+				for _, r := range p {
+					sc(r)
+				}
+			}
+		}
+		return in, orb.Clone(in)
+	case 19, 20:
+		// a rectangle whose width and height are symbolic integers in [1, 2^28): as a clockwise hole
+		// of a big concrete outer ring, and as the counter-clockwise outer ring of a second polygon
+		// (both symbolic makes a 28x28-bit symbolic multiplication in the winding sum: z3 does not decide it;
+		// the height is concrete, different in the two cases)
+		w := float64(vfI32("w"))
+		vfAssume(vfAnd(w >= 1, w < 1<<28-3))
+		h := 50001.0
+		if c == 20 {
+			h = 1<<27 + 1
+		}
+		if c == 19 {
+			big := float64(1<<28 - 1)
+			o := orb.Ring{{0, 0}, {big, 0}, {big, big}, {0, big}, {0, 0}}
+			hole := orb.Ring{{1, 1}, {1, 1 + h}, {1 + w, 1 + h}, {1 + w, 1}, {1, 1}}
+			p := orb.Polygon{o, hole}
+			return p, p.Clone()
+		}
+		a := vfConcreteRing(0, 0, true)
+		b := orb.Ring{{1, 1}, {1 + w, 1}, {1 + w, 1 + h}, {1, 1 + h}, {1, 1}}
+		mp := orb.MultiPolygon{{a}, {b}}
+		return mp, mp.Clone()
 	}
+	// case 14
 	b := orb.Bound{Min: g.pt(), Max: g.pt()}
 	vfAssume(vfAnd(b.Min[0] < b.Max[0], b.Min[1] < b.Max[1]))
 	return b, b.ToPolygon()
@@ -205,7 +260,12 @@ func vfSameGeom(id string, got, want orb.Geometry) {
 	}
 }
 
-func vfC03Geom_N(tier int) int     { return len(vfGeomNames) }
+func vfC03Geom_N(tier int) int {
+	if tier == 0 {
+		return len(vfGeomNames) - 1 // the last case (~4 min of solver time) is thorough only
+	}
+	return len(vfGeomNames)
+}
 func vfC03Geom_Label(c int) string { return vfGeomNames[c] }
 
 func vfC03Geom(c int) {
